@@ -9,6 +9,7 @@ PROP = {
              "GetFlow; unit 2 writes the same filters as flow YAML, loads them with the real loader and reads the executed flows from the processor events. "
              "Non-trivial: >=2 configured patterns match the URL under the permissive reading. distinct = canonical JSON of flows+orders+transactions"),
     "assumptions": [
+        "the gateway's log level (LOG_LEVEL: off in three cases of eight, else error / info / debug / trace; what is logged is thrown away, what a log statement does to build its arguments happens) is a generated part of every case of TestFilterTreeSelection and TestEngineSelectionE2E: no answer may depend on it; a failing case reports its level",
         "unit TestSelectionThroughHandler: request transactions arrive as SPOE messages through routing.Handler of a real HandlingDataManager (the decoding of the message arguments is under test); the headers argument has the proxy's dump format (a CRLF-terminated line per header plus the closing empty line), with the constrained header also in upper case, on two lines with one value, or on two lines with different values (then flows that constrain it are not judged)",
         "sample_percentage (random) and JSONPath expressions (separate engine) are excluded",
         "a filter without a method list may or may not accept methods outside GET/POST/PUT/DELETE/PATCH (both readings accepted)",
